@@ -8,6 +8,7 @@ INVARIANT EmbeddedIsText
 INVARIANT ConstantIsItself
 INVARIANT NeverSendsNothing
 INVARIANT PointerLaws
+INVARIANT FalsyIsAValue
 INVARIANT TreeAllOrNothing
 INVARIANT Export
 CHECK_DEADLOCK FALSE
